@@ -8,7 +8,7 @@ import vlib
 from props import c03
 
 LEVEL = "exploration"
-REPO = "/repo"
+REPO = vlib.REPO
 
 
 def tla_set(xs):
